@@ -84,6 +84,21 @@ def r_AutoPyDiscipline(env):
     return AutoPyDiscipline(py_f, py_f_jac)
 
 
+def r_AutoPyDiscipline_fd(env):
+    """Without a Jacobian function: the discipline owns a finite-difference approximator that refers back to it."""
+    from gemseo.disciplines.auto_py import AutoPyDiscipline
+
+    return AutoPyDiscipline(py_f)
+
+
+def r_AnalyticDiscipline_ns(env):
+    """With namespaces on an input and an output."""
+    d = _analytic()
+    d.add_namespace_to_input("x", "ns_in")
+    d.add_namespace_to_output("y", "ns_out")
+    return d
+
+
 def r_ArrayBasedFunctionDiscipline(env):
     from gemseo.disciplines.array_based_function import ArrayBasedFunctionDiscipline
 
@@ -298,7 +313,7 @@ def _mda(cls_name, strongly_coupled_only=False, **kw):
 
 
 def r_MDAJacobi(env):
-    return _mda("MDAJacobi", n_processes=1)
+    return _mda("MDAJacobi", n_processes=2)  # (the disciplines are executed by a thread pool, as by default)
 
 
 def r_MDAGaussSeidel(env):
@@ -361,7 +376,9 @@ def r_MDOObjectiveScenarioAdapter(env):
 # "diff": (inputs, outputs) to declare.
 EXTRA = {
     "AnalyticDiscipline": r_AnalyticDiscipline,
+    "AnalyticDiscipline/namespaces": r_AnalyticDiscipline_ns,
     "AutoPyDiscipline": r_AutoPyDiscipline,
+    "AutoPyDiscipline/fd": r_AutoPyDiscipline_fd,
     "ArrayBasedFunctionDiscipline": r_ArrayBasedFunctionDiscipline,
     "Concatenater": r_Concatenater,
     "Splitter": r_Splitter,
